@@ -80,6 +80,8 @@ struct Sc<'a> {
     /// start number for the completeness judgement per registered script
     starts: BTreeMap<(ST, Vec<u8>), u64>,
     flags: Vec<&'static str>,
+    /// scripts that were registered once and dropped by a later set_scripts (all / delete), whether or not they were registered again
+    dropped: std::collections::BTreeSet<(ST, Vec<u8>)>,
 }
 
 impl<'a> Sc<'a> {
@@ -172,7 +174,43 @@ impl<'a> Sc<'a> {
         }
         if let Some((name, t)) = cmp.bogus_history.first() {
             ok = false;
-            self.viol(&format!("{}.R1", self.prop), "history-entry-not-on-chain", json!({"when": when, "script": name, "entry": format!("{:?}", t), "count": cmp.bogus_history.len()}), w);
+            // where does the transaction of the bogus entry occur in the scenario's chains (abandoned branches included)?
+            let mut found_in: Vec<String> = vec![];
+            for (cix, c) in w.chains.iter().enumerate() {
+                for (h, (_, bn, ti)) in c.txs.iter() {
+                    if hex(h.as_slice()) == t.tx_hash {
+                        found_in.push(format!("chain{}{}:block{}:tx{}", cix, if cix == ci { "(current)" } else { "" }, bn, ti));
+                    }
+                }
+            }
+            // mechanism attributes (KF42's mechanism seen through C09's histories): the entry belongs to the abandoned branch of a fork
+            // and (a) is owned by another, meanwhile dropped script and reaches this answer through the prefix aliasing of the index keys,
+            // or (b) the searched script itself was dropped before the fork rollback and registered again afterwards
+            let on_abandoned_branch_only = !found_in.is_empty() && !found_in.iter().any(|f| f.contains("(current)"));
+            let searched_hex = name.split(':').nth(1).unwrap_or("").to_string();
+            let mut owner_hex: Option<String> = None;
+            if t.io_type == 1 {
+                for c in w.chains.iter() {
+                    if let Some((tx, _, _)) = c.txs.iter().find(|(h, _)| hex(h.as_slice()) == t.tx_hash).map(|(_, v)| v) {
+                        if let Some(o) = tx.outputs().get(t.io_index as usize) {
+                            owner_hex = if name.starts_with("Lock") { Some(hex(o.lock().as_slice())) } else { o.type_().to_opt().map(|s| hex(s.as_slice())) };
+                        }
+                        break;
+                    }
+                }
+            }
+            let owner_dropped = owner_hex.as_ref().map(|o| self.dropped.iter().any(|(_, raw)| &hex(raw) == o)).unwrap_or(false);
+            let searched_dropped_once = self.dropped.iter().any(|(_, raw)| hex(raw) == searched_hex);
+            let forked = self.flags.iter().any(|f| *f == "block-1-replaced" || *f == "fork");
+            let tag = if forked && on_abandoned_branch_only && owner_hex.as_ref().map(|o| o != &searched_hex).unwrap_or(false) && owner_dropped {
+                "history-entry-not-on-chain|entry-of-a-dropped-script-through-prefix-alias|abandoned-branch"
+            } else if forked && on_abandoned_branch_only && searched_dropped_once {
+                "history-entry-not-on-chain|script-reregistered-across-fork|abandoned-branch"
+            } else {
+                "history-entry-not-on-chain"
+            };
+            self.viol(&format!("{}.R1", self.prop), tag, json!({"owner_of_the_entry": owner_hex, "when": when, "script": name, "entry": format!("{:?}", t), "count": cmp.bogus_history.len(), "transaction_occurs_in": found_in,
+                "scripts_now": get_scripts(w).iter().map(|(s, st, n)| format!("{:?}:{}@{}", st, hex(s.as_slice()), n)).collect::<Vec<_>>(), "starts": self.starts.iter().map(|(k, v)| format!("{:?}:{}@{}", k.0, hex(&k.1), v)).collect::<Vec<_>>()}), w);
         }
         let pred: Vec<_> = cmp.missing_history.iter().filter(|(_, _, p)| *p).collect();
         let other: Vec<_> = cmp.missing_history.iter().filter(|(_, _, p)| !*p).collect();
@@ -200,6 +238,7 @@ impl<'a> Sc<'a> {
             if n <= start {
                 continue;
             }
+            let reported = n;
             let n = n.min(chain.tip());
             let got = &snap.iter().find(|(a, b, _, _)| a == s && *b == st).unwrap().3;
             self.out.eval(1);
@@ -207,7 +246,9 @@ impl<'a> Sc<'a> {
             if let Some(truth) = idx.history.get(&(st, refidx::script_key(s))) {
                 for t in truth.iter().filter(|t| t.block > start && t.block <= n) {
                     if !got.contains(t) && t.io_type != 0 {
-                        self.viol("C09.R3", "reported-number-ahead-of-index|matched-blocks-pending", json!({"when": "inside a round, after a BlockFilters message, matched blocks pending", "script": hex(s.as_slice()), "reported": n, "start": start, "missing": format!("{:?}", t)}), w);
+                        let forked = self.flags.iter().any(|f| *f == "tip-1-start");
+                        let tag = if forked && t.block == reported && reported == 1 { "reported-number-ahead-of-index|first-block-removed-by-fork-rollback|matched-blocks-pending" } else { "reported-number-ahead-of-index|matched-blocks-pending" };
+                        self.viol("C09.R3", tag, json!({"when": "inside a round, after a BlockFilters message, matched blocks pending", "script": hex(s.as_slice()), "reported": reported, "start": start, "missing": format!("{:?}", t)}), w);
                         return;
                     }
                 }
@@ -218,13 +259,21 @@ impl<'a> Sc<'a> {
     /// C09.R3: a script reported as filtered up to n has everything in (start, n] indexed
     fn check_reported_numbers(&mut self, w: &World, ci: usize, when: &str) {
         let chain = &w.chains[ci];
+        // the reported numbers speak about the chain the client follows: while its proven tip is still on a branch the network has
+        // left (fork switch not yet proven to the client), the network's chain is not the yardstick
+        if chain.num_of(&w.c().stored_tip().1.calc_header_hash()).is_none() {
+            self.out.count("reported_numbers_not_judged_client_tip_on_abandoned_branch", 1);
+            return;
+        }
         let rpc = w.c().rpc_filter();
         let idx = refidx::build(chain, chain.tip());
+        let min_filtered = w.c().storage.get_min_filtered_block_number();
         for (s, st, n) in get_scripts(w) {
             let start = self.starts.get(&skey(&s, st)).cloned().unwrap_or(0);
             if n <= start {
                 continue;
             }
+            let reported = n;
             let n = n.min(chain.tip());
             let got = refidx::rpc_txs(&rpc, &s, st, 50);
             self.out.eval(1);
@@ -236,7 +285,13 @@ impl<'a> Sc<'a> {
                         if predates {
                             continue;
                         }
-                        self.viol("C09.R3", "reported-number-ahead-of-index", json!({"when": when, "script": hex(s.as_slice()), "reported": n, "start": start, "missing": format!("{:?}", t)}), w);
+                        // mechanism attribute: right after a fork rollback rollback_to_block(r) leaves the scripts at number r (the first
+                        // block it removed) and the filter progress at r - 1: only block r itself can be reported-but-not-indexed
+                        // (here the only fork is the replacement of block#1: r = 1; the number stays at r until the blocks matched by the
+                        // second filter pass are indexed, whatever the filter progress is meanwhile)
+                        let forked = self.flags.iter().any(|f| *f == "tip-1-start");
+                        let tag = if forked && t.block == reported && reported == 1 { "reported-number-ahead-of-index|first-block-removed-by-fork-rollback" } else { "reported-number-ahead-of-index" };
+                        self.viol("C09.R3", tag, json!({"when": when, "script": hex(s.as_slice()), "reported": reported, "min_filtered": min_filtered, "start": start, "missing": format!("{:?}", t)}), w);
                         return;
                     }
                 }
@@ -267,7 +322,10 @@ fn scenario(kind: Kind, seed: u64, k: u64, out: &Out) {
     params.tx_density = *rng.pick(&[40, 70, 100]);
     params.n_locks = rng.range(2, 6) as usize;
     let len_max = if rng.chance(1, 5) { 320 } else { 110 };
-    let len = rng.range(12, len_max);
+    // a tenth of the histories start on a chain that consists of genesis and block#1 only: the client proves tip #1 (no remembered
+    // headers below it), then the network grows or replaces block#1 (the client cannot tell and rolls back to block#1 "for safety")
+    let tiny = rng.chance(1, 10);
+    let len = if tiny { 2 } else { rng.range(12, len_max) };
     let mut ccfg = gen_ccfg(&mut rng);
     if kind == Kind::C04 {
         ccfg.last_n = *rng.pick(&[2u64, 3, 5, 10]);
@@ -286,7 +344,7 @@ fn scenario(kind: Kind, seed: u64, k: u64, out: &Out) {
         Kind::C09 => "C09",
     };
     let desc = json!({"seed": seed, "scenario": k, "len": len, "last_n": ccfg.last_n, "cp_interval": ccfg.cp_interval, "pow": format!("{:?}", params.pow), "density": params.tx_density, "peers": npeers});
-    let mut sc = Sc { out, k, kind, prop, desc: desc.clone(), actions: vec![], starts: BTreeMap::new(), flags: vec![] };
+    let mut sc = Sc { out, k, kind, prop, desc: desc.clone(), actions: vec![], starts: BTreeMap::new(), flags: vec![], dropped: Default::default() };
     let mut model: BTreeMap<(ST, Vec<u8>), u64> = BTreeMap::new();
     // initial registration
     let mut regs: Registered = vec![];
@@ -310,6 +368,24 @@ fn scenario(kind: Kind, seed: u64, k: u64, out: &Out) {
     hook.sample_tick = seed | 1;
     let n_actions = rng.range(1, 6);
     let mut forked = false;
+    if tiny {
+        let _ = w.run_until(&mut hook, 12, |w| w.converged_on(0));
+        sc.flag("tip-1-start");
+        if w.dead {
+            out.count("tiny_start_dead", 1);
+        } else if rng.chance(1, 2) {
+            let pending = w.matched_pending();
+            net.fork(&mut w, 0, rng.range(2, 14), rng.next_u64() | 1);
+            sc.actions.push(format!("block#1 replaced: fork at genesis while the client's tip is #{} (matched pending {})", Unpack::<u64>::unpack(&w.c().storage.get_tip_header().raw().number()), pending));
+            sc.flag("block-1-replaced");
+            hook.switched = Some((net.main, 0));
+            forked = true;
+            net.grow(&mut w, 1);
+        } else {
+            net.grow(&mut w, rng.range(1, 14));
+            sc.actions.push("grow after tip #1".into());
+        }
+    }
     let mut long_fork = false;
     for _ in 0..n_actions {
         // let the sync advance a random number of rounds (often not to completion)
@@ -429,7 +505,13 @@ fn scenario(kind: Kind, seed: u64, k: u64, out: &Out) {
                 set_scripts(&w, &r, rpc_cmd(cmd));
                 // README model (empty partial / delete lists are no-ops)
                 if !(r.is_empty() && cmd != "all") {
+                    let before_keys: Vec<_> = model.keys().cloned().collect();
                     model_apply(&mut model, cmd, &r);
+                    for key in before_keys {
+                        if !model.contains_key(&key) {
+                            sc.dropped.insert(key);
+                        }
+                    }
                     for (s, st, n) in r.iter() {
                         if cmd != "delete" {
                             sc.starts.insert(skey(s, *st), *n);
